@@ -2,14 +2,14 @@
 # usage: tryseedw.sh <patch.diff> <prop> [extra vcheck args]
 # like tryseed.sh but in the scratch worktree /tmp/seed/tryW (debug switch VCHECK_REPO), so /repo stays free
 patch=$1; prop=$2; shift 2
-w=/tmp/seed/tryW
+w=${TRYW:-/tmp/seed/tryW}
 cd $w || exit 9
 if ! git diff --quiet; then echo "$w is dirty"; exit 9; fi
 git apply "$patch" || { echo "patch does not apply"; exit 9; }
-cd /verif && VCHECK_REPO=$w VCHECK_EVIDENCE_DIR=/tmp/ev-try timeout 1500 ./bin/vcheck -prop "$prop" "$@" > /tmp/tryseedw.$prop.log 2>&1
+cd /verif && VCHECK_REPO=$w VCHECK_EVIDENCE_DIR=/tmp/ev-$(basename $w) timeout 1500 ./bin/vcheck -prop "$prop" "$@" > /tmp/tryseedw.$prop.$(basename $w).log 2>&1
 rc=$?
 git -C $w checkout -- .
 echo "exit=$rc"
-grep -c "^VIOLATION" /tmp/tryseedw.$prop.log | sed 's/^/violations=/'
-grep "^VIOLATION\|^INCONCLUSIVE\|key=" /tmp/tryseedw.$prop.log | head -6 | cut -c1-220
-tail -1 /tmp/tryseedw.$prop.log
+grep -c "^VIOLATION" /tmp/tryseedw.$prop.$(basename $w).log | sed 's/^/violations=/'
+grep "^VIOLATION\|^INCONCLUSIVE\|key=" /tmp/tryseedw.$prop.$(basename $w).log | head -6 | cut -c1-220
+tail -1 /tmp/tryseedw.$prop.$(basename $w).log
